@@ -20,7 +20,11 @@ use proptest::{
 use serde::{de::DeserializeOwned, Deserialize, Serialize};
 use serde_json::{json, Value};
 
-pub const VERIF_DIR: &str = "/verif";
+/// Root of the verification tree (evidence, corpus, replays, known findings, build/). `VERIF_DIR`
+/// overrides it for background runs from a snapshot.
+pub fn verif_dir() -> PathBuf {
+    PathBuf::from(std::env::var("VERIF_DIR").unwrap_or_else(|_| "/verif".to_string()))
+}
 
 #[derive(Clone, Copy, Debug, PartialEq, Eq)]
 pub enum Tier {
@@ -167,6 +171,14 @@ pub trait Property: Sync {
     fn run_shard(&self, env: &Env, nshards: usize, known: &Known) -> ShardReport;
     fn replay(&self, case: &Value, env: &Env) -> Result<Outcome, String>;
     fn replay_repeats(&self) -> u32;
+    /// A single case that runs longer than this is a stall (the shard ends with exit code 3).
+    fn case_timeout_s(&self) -> u64 {
+        match self.id() {
+            "C15" | "C18" => 600,
+            "C06" | "C10" | "C11" | "C16" | "C17" => 300,
+            _ => 180,
+        }
+    }
 }
 
 /// A property defined by a case type, a strategy and an executor.
@@ -205,6 +217,28 @@ fn rng_for(seed: u64, id: &str, shard: usize) -> TestRng {
         bytes[(i as usize) * 8..(i as usize + 1) * 8].copy_from_slice(&h.to_le_bytes());
     }
     TestRng::from_seed(RngAlgorithm::ChaCha, &bytes)
+}
+
+/// milliseconds since process start at which the running case started (0 = no case running)
+static CASE_STARTED_MS: std::sync::atomic::AtomicU64 = std::sync::atomic::AtomicU64::new(0);
+static PROCESS_T0: std::sync::OnceLock<Instant> = std::sync::OnceLock::new();
+
+fn now_ms() -> u64 {
+    PROCESS_T0.get_or_init(Instant::now).elapsed().as_millis() as u64 + 1
+}
+
+/// Watchdog thread of a shard: when one case runs longer than `limit_s`, save it next to the
+/// report path and leave with exit code 3 (threads may be stuck inside the code under test).
+fn spawn_stall_watchdog(limit_s: u64, current_case: PathBuf, out: PathBuf) {
+    std::thread::spawn(move || loop {
+        std::thread::sleep(Duration::from_millis(250));
+        let st = CASE_STARTED_MS.load(Ordering::SeqCst);
+        if st != 0 && now_ms().saturating_sub(st) > limit_s * 1000 {
+            let case = std::fs::read_to_string(&current_case).unwrap_or_default();
+            let _ = std::fs::write(out.with_extension("stall"), case);
+            std::process::exit(3);
+        }
+    });
 }
 
 thread_local! {
@@ -276,7 +310,7 @@ pub struct Known {
 impl Known {
     pub fn load() -> Known {
         let mut k = Known::default();
-        let p = Path::new(VERIF_DIR).join("known_findings.txt");
+        let p = verif_dir().join("known_findings.txt");
         if let Ok(text) = std::fs::read_to_string(p) {
             for line in text.lines() {
                 let line = line.trim();
@@ -328,7 +362,7 @@ pub struct CaseFile {
 }
 
 pub fn write_replay(id: &str, case: &Value, seed: u64, f: &Failure) -> String {
-    let dir = Path::new(VERIF_DIR).join("replays").join(id);
+    let dir = verif_dir().join("replays").join(id);
     let _ = std::fs::create_dir_all(&dir);
     let h = hash64(&serde_json::to_string(case).unwrap_or_default());
     let path = dir.join(format!("{:016x}.json", h));
@@ -481,7 +515,7 @@ where
 
         // Shard 0 replays the committed corpus first.
         if env.shard == 0 {
-            let dir = Path::new(VERIF_DIR).join("corpus").join(self.id);
+            let dir = verif_dir().join("corpus").join(self.id);
             let mut files: Vec<PathBuf> = std::fs::read_dir(&dir)
                 .map(|rd| rd.filter_map(|e| e.ok()).map(|e| e.path()).collect())
                 .unwrap_or_default();
@@ -538,12 +572,18 @@ where
                 cases: per as u32,
                 failure_persistence: None,
                 max_shrink_iters: self.max_shrink_iters,
+                // shrinking is bounded in time as well: cases that fail by running into a bound
+                // (a missing reply, a hang) take seconds each
+                max_shrink_time: env.tier.pick(45_000, 240_000),
                 max_global_rejects: 65536,
                 ..Config::default()
             };
             let mut runner = TestRunner::new_with_rng(config, rng_for(env.seed, self.id, env.shard));
             let strategy = (self.strategy)(env.tier);
             let current_path = env.scratch.join("current-case.json");
+            if let Some(op) = &env.out_path {
+                spawn_stall_watchdog(self.case_timeout_s(), current_path.clone(), op.clone());
+            }
             let accr = std::cell::RefCell::new(&mut acc);
             let result = runner.run(&strategy, |c| {
                 let cj = serde_json::to_value(&c).unwrap_or(Value::Null);
@@ -551,7 +591,9 @@ where
                     // side file: lets the supervisor name the case if this process dies
                     let _ = std::fs::write(&current_path, serde_json::to_string(&cj).unwrap_or_default());
                 }
+                CASE_STARTED_MS.store(now_ms(), Ordering::SeqCst);
                 let out = self.exec_caught(&c, env);
+                CASE_STARTED_MS.store(0, Ordering::SeqCst);
                 let failed = accr.borrow_mut().absorb(self.id, &cj, &out, known);
                 if failed && out.fatal {
                     let mut a = accr.borrow_mut();
@@ -653,7 +695,7 @@ pub fn supervise(prop: &dyn Property, tier: Tier, seed: u64) -> i32 {
     let nshards = prop.shards(tier).max(1);
     let exe = std::env::current_exe().expect("current exe");
     let scratch = make_scratch(&format!("sup-{}", id));
-    let shim = Path::new(VERIF_DIR).join("build/libvshim.so");
+    let shim = verif_dir().join("build/libvshim.so");
     let known = Known::load();
 
     let mut children = Vec::new();
@@ -757,6 +799,16 @@ pub fn supervise(prop: &dyn Property, tier: Tier, seed: u64) -> i32 {
                     harness_errors.push(format!("shard {}: {}", s, e));
                 }
             }
+            None if out.with_extension("stall").exists() => {
+                let text = std::fs::read_to_string(out.with_extension("stall")).unwrap_or_default();
+                let case: Value = serde_json::from_str(&text).unwrap_or(Value::Null);
+                let fl = Failure {
+                    sig: "case-stalled".into(),
+                    msg: format!("one case ran longer than {} s and was abandoned (inconclusive, not a violation)", prop.case_timeout_s()),
+                };
+                let path = write_replay(id, &case, seed, &fl);
+                harness_errors.push(format!("shard {}: a case stalled for more than {} s; it is saved as {}", s, prop.case_timeout_s(), path));
+            }
             None => {
                 use std::os::unix::process::ExitStatusExt;
                 let sig = st.and_then(|x| x.signal());
@@ -844,7 +896,7 @@ pub fn supervise(prop: &dyn Property, tier: Tier, seed: u64) -> i32 {
         "wall_s": wall,
         "violations": total.violations.len(),
     });
-    let evdir = Path::new(VERIF_DIR).join("evidence");
+    let evdir = verif_dir().join("evidence");
     let _ = std::fs::create_dir_all(&evdir);
     let evpath = evdir.join(format!("{}.json", id));
     let mut f = std::fs::File::create(&evpath).expect("evidence file");
@@ -928,7 +980,7 @@ pub fn replay_main(props: &[&dyn Property], path: &Path) -> i32 {
         let st = Command::new(exe)
             .arg("replay")
             .arg(path)
-            .env("LD_PRELOAD", Path::new(VERIF_DIR).join("build/libvshim.so"))
+            .env("LD_PRELOAD", verif_dir().join("build/libvshim.so"))
             .env("VH_REEXEC", "1")
             .status();
         return st.ok().and_then(|s| s.code()).unwrap_or(2);
